@@ -24,6 +24,10 @@ res['existing_suite_with_change']='pass' if suite_ok else 'FAIL: '+t.stdout[-400
 demo=None; kind=None
 for f in ('demo_test.go','demo.sh'):
     if os.path.exists(os.path.join(out,f)): demo=os.path.join(out,f); kind=f
+def notes_text():
+    for f in ('notes.md','note.md'):
+        if os.path.exists(os.path.join(out,f)): return open(os.path.join(out,f)).read()
+    return ''
 def run_demo():
     if kind=='demo_test.go':
         first=open(demo).readline()
@@ -36,13 +40,13 @@ def run_demo():
             pk=m.group(1) if m else 'exec'
             pkg={'exec':'exec','store':'store','parser':'parser','main':'xsel','xsel':'.','xsel_test':'.'}.get(pk,'exec')
         dst=os.path.join(WT,pkg,'zz_demo_test.go'); shutil.copy(demo,dst)
-        race='-race ' if '-race' in open(os.path.join(out,'notes.md')).read() else ''
+        race='-race ' if '-race' in notes_text() else ''
         r=sh(f'cd {WT} && go test {race}-vet=off -count=1 ./{pkg}/ 2>&1 | tail -25', timeout=900)
         os.remove(dst)
         ok = r.returncode==0 and 'FAIL' not in r.stdout and 'panic:' not in r.stdout
         return ok, r.stdout[-600:]
     else:
-        txt=open(demo).read().replace('/tmp/mut2/%s-out'%prop,'/tmp/mutcheck-out').replace('/tmp/mut/%s-out'%prop,'/tmp/mutcheck-out').replace('/tmp/mut2/%s'%prop, WT).replace('/tmp/mut/%s'%prop, WT); os.makedirs('/tmp/mutcheck-out',exist_ok=True)
+        txt=open(demo).read().replace('/tmp/mut2/%s-out'%prop,'/tmp/mutcheck-out').replace('/tmp/mut/%s-out'%prop,'/tmp/mutcheck-out').replace('/tmp/mut2/%s'%prop, WT).replace('/tmp/m3-out/%s'%prop,'/tmp/mutcheck-out').replace('/tmp/m3/%s'%prop, WT).replace('/tmp/mut/%s'%prop, WT); os.makedirs('/tmp/mutcheck-out',exist_ok=True)
         tmp='/tmp/mutcheck-demo.sh'; open(tmp,'w').write(txt)
         r=sh(f'bash {tmp} 2>&1 | tail -25', timeout=900)
         r2=sh(f'bash {tmp} >/dev/null 2>&1; echo $?')
@@ -69,7 +73,7 @@ ok_without, log_without = run_demo()
 res['demo_without_change']='pass' if ok_without else 'FAILS on the unchanged tree (invalid demo): '+log_without[-300:]
 res['caught_by']={k:sorted(v) for k,v in sorted(caught_props.items())}
 res['confirmed']= suite_ok and (not ok_with) and ok_without
-notes=open(os.path.join(out,'notes.md')).read() if os.path.exists(os.path.join(out,'notes.md')) else ''
+notes=notes_text()
 res['needs_to_manifest']=notes[:1500]
 res['what_i_ran']=['git apply patch.diff on a scratch worktree of /repo HEAD %s'%head[:7],'go build ./... ; go test -vet=off -count=1 ./... (existing suite)','demonstration with the change, then on the clean tree','/verif/bin/xselcheck -property all on the changed tree']
 res['expect']=[{'property':p,'rule':r} for p,rs in res['caught_by'].items() for r in rs]
